@@ -28,6 +28,7 @@ func GenSpec(t *rapid.T, defects []Defect) Spec {
 	s.XHeaders = rapid.SliceOfN(rapid.SampledFrom(xHeaderPool), 0, 2).Draw(t, "xheaders")
 	s.Trusted = rapid.IntRange(0, 5).Draw(t, "trusted") == 0
 	s.Late = rapid.IntRange(0, 2).Draw(t, "late") == 0
+	s.TLSPeer = rapid.IntRange(0, 2).Draw(t, "tlsPeer") != 0 && (s.Defect.IsSignature() || rapid.Bool().Draw(t, "tlsPeerOther"))
 	s.DefectArg = rapid.IntRange(0, 400).Draw(t, "defectArg")
 	s.Session = rapid.SampledFrom([]int{SessionNone, SessionNone, SessionV1, SessionV2}).Draw(t, "session")
 	s.SessionBindObj = rapid.Bool().Draw(t, "sessionBindObj")
